@@ -4,6 +4,8 @@ import re
 import hir as H
 import mir as M
 import rulelib as L
+import symrules as SR
+import sym
 
 CRATES = ["identity_storage", "identity_document", "identity_iota_core"]
 X = "identity_storage::storage::jwk_document_ext"
@@ -32,103 +34,90 @@ def run(F, R, tier):
                     "behaviour of concrete stores under faults (their own atomicity)"]
 
     # ------------------------------------------------------------------ R1 compensation in generate_method
-    r1 = R.rule("C09-R1", "T11", "generate_method: after `generate` succeeded every error exit goes through try_undo_key_generation; after insert_method succeeded additionally through remove_method; the only `?` exits after generate are the two reviewed infallible ones")
+    r1 = R.rule("C09-R1", "T8+T11", "generate_method, evaluated abstractly with every storage/document call an oracle that may succeed or fail: on every path the net effect is all (key generated, method inserted, key id recorded → Ok) or nothing (key deleted again ✓, method removed again, no key id → the original error), the only other outcome being Err(UndoOperationFailed) when the key deletion itself failed; try_undo_key_generation deletes exactly the given key and reports a failed deletion")
+    OPQ = (r"JwkStorage::(generate|delete|insert|sign|exists)$|JwkStorageBbsPlusExt::generate_bbs$|KeyIdStorage::(insert_key_id|get_key_id|delete_key_id)$|::insert_method$|::remove_method$|"
+           r"VerificationMethod::new_from_jwk$|MethodDigest::new$|Storage::key_(id_)?storage$|DIDUrl::fragment$|::id$")
     for kind, fn in GEN.items():
-        h = F.hir(fn)
-        if not r1.anchor(h, fn):
+        if not r1.anchor(F.hir(fn), fn):
             continue
-        env = H.Env(h)
-        tree, infos = L.exit_infos(h)
-        gen_calls = [n for n in H.walk(H.root(h)) if n.get("k") == "call" and re.search(r"JwkStorage::generate$|JwkStorageBbsPlusExt::generate_bbs$", H.fn_name(n) or "")]
-        if not r1.require(len(gen_calls) == 1, (fn, "generate-call"), "expected exactly one key generation call"):
-            continue
-        ins = [n for n in H.walk(H.root(h)) if n.get("k") == "mcall" and n["name"] == "insert_method"]
-        r1.require(len(ins) == 1, (fn, "insert_method-call"), "expected exactly one insert_method call")
-        errs = [e for e in infos if e.outcome.startswith("Err(")]
-        n_undo = 0
-        for e in errs:
-            after_gen = any(any(x is gen_calls[0] for x in H.walk(s)) for s in e.pre) or any(any(x is gen_calls[0] for x in H.walk(c[1])) for c in e.conds if isinstance(c[1], dict))
-            if not after_gen:
+        tab = SR.Table(F, fn, opaque=OPQ, rule=r1, inline_depth=5)
+        rows = {"ok": 0, "rolled-back": 0, "undo-failed": 0, "before-generate": 0}
+        for q in tab.paths:
+            gens = q.calls(r"JwkStorage::generate$|JwkStorageBbsPlusExt::generate_bbs$")
+            if not r1.require(len(gens) <= 1, (fn, "generate-call"), "expected at most one key generation call on a path"):
                 continue
-            _, inner = H.ctor_class(e.node)
-            aw = H.await_inner(inner) if inner is not None else None
-            callee = H.strip(aw) if aw is not None else H.strip(inner) if inner is not None else {}
-            is_undo = callee.get("k") == "call" and H.fn_name(callee) == UNDO
-            r1.site("%s: error exit after generate → %s" % (kind, "try_undo_key_generation" if is_undo else H.outcome(e.node)), e.node.get("sp"))
-            if not r1.require(is_undo, (fn, "error-without-undo"), "%s: an error exit after key generation does not go through try_undo_key_generation: the generated key is orphaned" % L.short(fn), e.node.get("sp")):
+            G = bool(gens) and q.succeeded(gens[0]) is True
+            GP = ("payload", gens[0].result.t, "Ok", 0) if gens else None
+            dels = q.calls(r"JwkStorage::delete$")
+            ims = q.calls(r"::insert_method$")
+            rms = q.calls(r"::remove_method$")
+            iks = q.calls(r"KeyIdStorage::insert_key_id$")
+            nfj = q.calls(r"VerificationMethod::new_from_jwk$")
+            MP = ("payload", nfj[0].result.t, "Ok", 0) if nfj else None
+            IM = any(q.succeeded(e) is True for e in ims)
+            IK = any(q.succeeded(e) is True for e in iks)
+            where = q.describe()[-220:]
+            if not G:
+                r1.require(not (ims or iks or dels) and SR.is_failure(q.ret), (fn, "effects-before-generate"), "%s: the document or a store is touched although key generation did not succeed" % L.short(fn))
+                rows["before-generate"] += 1
                 continue
-            n_undo += 1
-            a = callee["args"]
-            ko = H.origins(a[1], env)
-            r1.require(H.origins(a[0], env) == {("param", "storage")} and bool(ko) and all(o[0] == "call" and o[-1] == "key_id" for o in ko), (fn, "undo-args"), "try_undo_key_generation is not given (storage, &key_id of the generated key): %s" % sorted(map(str, ko)))
-            # after insert_method succeeded: the branch removes the method first
-            # insert_method *succeeded*: the statement containing the call completed (the exit is not inside that statement's own error branch)
-            in_own_cond = any(c[0] == "if" and isinstance(c[1], dict) and any(x is ins[0] for x in H.walk(c[1])) for c in e.conds) if ins else False
-            encl_conds = []
-            for p_, role_, idx_, child_ in tree.ancestors(e.node):
-                if p_.get("k") == "if" and role_ in ("then", "else"):
-                    encl_conds.append(p_["cond"])
-            in_own_cond = any(any(x is ins[0] for x in H.walk(c_)) for c_ in encl_conds) if ins else False
-            after_ins = (any(any(x is ins[0] for x in H.walk(s)) for s in e.pre) and not in_own_cond) if ins else False
-            if after_ins:
-                blk = block_of_exit(tree, e.node)
-                rm = [x for s in blk for x in H.walk(s) if x.get("k") == "mcall" and x["name"] == "remove_method"]
-                r1.require(len(rm) == 1 and H.local_name(rm[0]["args"][0]) == "method_id", (fn, "undo-insert_method"), "%s: an error exit after insert_method succeeded does not first remove the inserted method from the document" % L.short(fn), e.node.get("sp"))
-                r1.site("%s: error after insert_method → remove_method(&method_id) then undo" % kind, e.node.get("sp"))
-        r1.require(n_undo == 3, (fn, "undo-exits"), "%s: expected 3 compensated error exits (method construction, insert_method, insert_key_id), found %d" % (L.short(fn), n_undo))
-        # `?` exits positioned after the generate call
-        tries = []
-        seen_gen = False
-        for n in H.walk(H.root(h)):
-            if n is gen_calls[0]:
-                seen_gen = True
-            if n.get("k") == "match" and n.get("src") == "try":
-                inner = n["scrut"]["args"][0] if n["scrut"].get("args") else None
-                calls = [H.fn_name(c) or c.get("name", "") for c in H.tried_calls([n])]
-                is_gen = any(x is gen_calls[0] for x in H.walk(n))
-                tries.append((is_gen, [c.rsplit("::", 1)[-1] for c in calls]))
-        after = [t for g, t in tries if not g]
-        after = [t for t in after if not ("generate" in t or "generate_bbs" in t)]
-        allowed = [t for t in after if "new" in t and "map_err" in t or "ok_or" in t and "fragment" in t or ("fragment" in t)]
-        r1.site("%s: `?` exits other than generate: %s" % (kind, after))
-        r1.require(len(after) == 2 and any("fragment" in t for t in after) and any(t[-1] == "new" or "new" in t for t in after), (fn, "uncompensated-try"),
-                   "%s: the `?` exits besides key generation are %s; only MethodDigest::new(..)? and the fragment extraction may return without undo (neither touches storage and both are infallible for a JWK method with a fragment)" % (L.short(fn), after))
+            for e in dels:
+                r1.require(SR.derives(e.args[1], GP), (fn, "undo-args"), "the key deleted on an error path is not the generated key: %s" % sym.fmt(sym.term(e.args[1])))
+            for e in ims:
+                r1.require(MP is not None and SR.derives(e.args[1], MP), (fn, "insert-arg"), "the method inserted is not the one built from the generated key")
+            for e in iks:
+                r1.require(SR.derives(e.args[2], GP) and MP is not None and SR.derives(e.args[1], MP), (fn, "key-id-args"), "insert_key_id does not record (digest of the new method → id of the generated key)")
+            if SR.is_success(q.ret) and not SR.is_failure(q.ret):
+                okk = IM and IK and not dels and not rms
+                r1.require(okk, (fn, "partial-success"), "%s returns Ok although not all of {method inserted, key id recorded} happened, or after undoing: …%s" % (L.short(fn), where))
+                r1.require(MP is not None and SR.derives(q.ret, MP), (fn, "returns"), "the fragment returned is not the new method's")
+                rows["ok"] += 1
+                continue
+            # error exits after a successful generate
+            md = q.calls(r"MethodDigest::new$")
+            fr = [e for e in q.calls(r"DIDUrl::fragment$") if MP is not None and SR.derives(e.args[0], MP)]
+            if any(q.succeeded(e) is False for e in md) or any(q.variant.get(e.result.t) == "None" for e in fr):
+                # the two reviewed `?` exits: neither can fail for a JWK method with a fragment built by new_from_jwk
+                continue
+            r1.require(not IK, (fn, "key-id-left"), "%s returns an error after the key id was recorded: …%s" % (L.short(fn), where))
+            if IM:
+                rm_ok = any(MP is not None and SR.derives(e.args[1], MP) for e in rms)
+                r1.require(rm_ok, (fn, "undo-insert_method"), "%s: an error exit after insert_method succeeded does not first remove the inserted method from the document: …%s" % (L.short(fn), where))
+            if not r1.require(bool(dels), (fn, "error-without-undo"), "%s: an error exit after key generation does not delete the generated key again (orphaned key): …%s" % (L.short(fn), where)):
+                continue
+            if any(q.succeeded(e) is False for e in dels):
+                r1.require("UndoOperationFailed" in str(q.ret), (fn, "undo-failure-silent"), "the key deletion failed but the error returned (%s) does not report the failed undo" % SR.err_name(q.ret))
+                rows["undo-failed"] += 1
+            else:
+                r1.require("UndoOperationFailed" not in str(q.ret), (fn, "undo-report"), "UndoOperationFailed is reported although the undo succeeded")
+                rows["rolled-back"] += 1
+        r1.site("%s: fault table rows %s" % (kind, rows))
+        r1.require(not tab.paths or (rows["ok"] >= 1 and rows["rolled-back"] >= 3 and rows["undo-failed"] >= 3), (fn, "undo-exits"), "%s: expected the three compensated failure points (method construction, insert_method, insert_key_id), each with a successful and a failed undo: %s" % (L.short(fn), rows))
         r1.exception(fn + " `MethodDigest::new(&method)?`", "reviewed", "total for PublicKeyJwk methods produced by new_from_jwk; no storage effect between generate and this exit is left behind only if it cannot fail")
         r1.exception(fn + " `method_id.fragment().ok_or(..)?`", "reviewed", "new_from_jwk always sets a fragment")
-        # order of effects: generate → insert_method → insert_key_id
-        order = []
-        for n in H.walk(H.root(h)):
-            nm = (H.fn_name(n) or n.get("name") or "") if n.get("k") in ("call", "mcall") else ""
-            if re.search(r"(JwkStorage::generate|generate_bbs)$", nm):
-                order.append("generate")
-            elif n.get("k") == "mcall" and n["name"] == "insert_method":
-                order.append("insert_method")
-            elif nm.endswith("KeyIdStorage::insert_key_id"):
-                order.append("insert_key_id")
-        r1.require(order == ["generate", "insert_method", "insert_key_id"], (fn, "effect-order"), "%s: effects are not generate → insert_method → insert_key_id: %s" % (L.short(fn), order))
-    # try_undo_key_generation
-    h = F.hir(UNDO)
-    if r1.anchor(h, UNDO):
-        env = H.Env(h)
-        dels = [n for n in H.walk(H.root(h)) if n.get("k") == "call" and (H.fn_name(n) or "").endswith("JwkStorage::delete")]
-        ok = len(dels) == 1 and H.origins(dels[0]["args"][1], env) == {("param", "key_id")}
-        r1.require(ok, (UNDO, "delete"), "try_undo_key_generation does not delete exactly the given key id")
-        others = [H.fn_name(n) for n in H.walk(H.root(h)) if n.get("k") == "call" and STORAGE_CALL.search(H.fn_name(n) or "") and not (H.fn_name(n) or "").endswith("JwkStorage::delete")]
-        r1.require(not others, (UNDO, "extra-storage-calls", ",".join(sorted(x.rsplit("::", 1)[-1] for x in others))), "try_undo_key_generation consults the store with %s before deleting: a failure of that call can skip the undo silently" % sorted(x.rsplit("::", 1)[-1] for x in others))
-        iff = H.find_first(h, lambda n: n.get("k") == "if" and H.strip(n["cond"]).get("k") == "letexpr")
-        okt = False
-        if iff is not None and iff.get("else") is not None:
-            ps = H.pat_str(H.strip(iff["cond"])["pat"])
-            t_v = H.err_variant(iff["then"].get("expr") or iff["then"]) if iff["then"].get("k") == "block" else None
-            then_struct = [x for x in H.walk(iff["then"]) if x.get("k") == "struct" and H.variant_name(x["res"]) == "UndoOperationFailed"]
-            else_o = H.origins(iff["else"], env)
-            okt = ps.startswith("Err") and bool(then_struct) and else_o == {("param", "source_error")}
-            if then_struct:
-                fl = {f["name"]: H.origins(f["e"], env, extra=re.compile(r"Box::new$")) for f in then_struct[0]["fields"]}
-                okt = okt and fl.get("source") == {("param", "source_error")}
+    if r1.anchor(F.hir(UNDO), UNDO):
+        tab = SR.Table(F, UNDO, opaque=OPQ, rule=r1)
+        okt = bool(tab.paths)
+        seen = set()
+        for q in tab.paths:
+            st = [e for e in q.events if e.kind == "call" and STORAGE_CALL.search(e.fn or "")]
+            dels = [e for e in st if (e.fn or "").endswith("JwkStorage::delete")]
+            if not r1.require(len(dels) == 1 and SR.pure(dels[0].args[1], SR.param("key_id")), (UNDO, "delete"), "try_undo_key_generation does not delete exactly the given key id"):
+                okt = False
+                continue
+            others = sorted({(e.fn or "").rsplit("::", 1)[-1] for e in st if e is not dels[0]})
+            r1.require(not others, (UNDO, "extra-storage-calls", ",".join(others)), "try_undo_key_generation consults the store with %s besides deleting: a failure of that call can skip the undo silently" % others)
+            if q.succeeded(dels[0]) is False:
+                seen.add("failed")
+                good = "UndoOperationFailed" in str(q.ret) and SR.derives(q.ret, SR.param("source_error"))
+            else:
+                seen.add("deleted")
+                good = SR.pure(q.ret, SR.param("source_error"))
+            if not r1.require(good, (UNDO, "table"), "try_undo_key_generation does not return UndoOperationFailed{source} exactly when the deletion failed and the source error otherwise: %s" % (q.ret,)):
+                okt = False
+        r1.require(seen == {"failed", "deleted"} or not tab.paths, (UNDO, "table"), "try_undo_key_generation does not branch on the result of the deletion")
         r1.site("try_undo_key_generation: delete failed → UndoOperationFailed{source: source_error}, else source_error: %s" % okt)
-        r1.require(okt, (UNDO, "table"), "try_undo_key_generation does not return UndoOperationFailed exactly when the deletion failed and the source error otherwise")
-    r1.floor(11)
+    r1.floor(3)
 
     # ------------------------------------------------------------------ R2 compensation in purge_method
     r2 = R.rule("C09-R2", "T11+T4", "purge_method: after remove_method_and_scope succeeded every error exit re-inserts the method under the scope it was found in, or reports UndoOperationFailed; the (key deletion, key-id deletion) table is complete")
